@@ -1,7 +1,9 @@
 package main
 
 import (
+	"fmt"
 	"go/ast"
+	"sort"
 	"strings"
 )
 
@@ -59,6 +61,51 @@ func lockBeforeReceiverUse(dir, recv, method, mutex string) bool {
 	return false
 }
 
+// wholeBodyLockKind: "W" when the method body begins with <x>.Lock(); defer <x>.Unlock(), "R" for RLock/RUnlock,
+// "-" otherwise (tracing boilerplate ignored).
+func wholeBodyLockKind(fd *ast.FuncDecl) string {
+	var stmts []ast.Stmt
+	for _, s := range fd.Body.List {
+		txt := stmtString(s)
+		if strings.Contains(txt, "tracer.NewSpan") || txt == "defer span.End()" {
+			continue
+		}
+		stmts = append(stmts, s)
+	}
+	if len(stmts) < 2 {
+		return "-"
+	}
+	a, b := stmtString(stmts[0]), stmtString(stmts[1])
+	for _, k := range [][3]string{{".Lock()", ".Unlock()", "W"}, {".RLock()", ".RUnlock()", "R"}} {
+		if strings.HasSuffix(a, k[0]) && b == "defer "+strings.TrimSuffix(a, k[0])+k[1] {
+			return k[2]
+		}
+	}
+	return "-"
+}
+
+// lockTable lists, for every method of the given receiver types in dir (source order of the names given), how its
+// whole body is locked.
+func lockTable(dir string, recvs ...string) [][2]string {
+	var out [][2]string
+	for _, f := range load(dir) {
+		for _, d := range f.Decls {
+			fd, ok := d.(*ast.FuncDecl)
+			if !ok || fd.Recv == nil || len(fd.Recv.List) != 1 || fd.Body == nil {
+				continue
+			}
+			rn := baseTypeName(fd.Recv.List[0].Type)
+			for _, r := range recvs {
+				if r == rn {
+					out = append(out, [2]string{rn + "." + fd.Name.Name, wholeBodyLockKind(fd)})
+				}
+			}
+		}
+	}
+	sort.Slice(out, func(i, j int) bool { return out[i][0] < out[j][0] })
+	return out
+}
+
 func stmtString(s ast.Stmt) string {
 	switch t := s.(type) {
 	case *ast.ExprStmt:
@@ -107,5 +154,10 @@ func genLocks() {
 	}
 	a("processCommandAtomic", "internal/dkg", "Process", "Command", "lock")
 	a("processPacketAtomic", "internal/dkg", "Process", "Packet", "lock")
+	var rows []string
+	for _, r := range lockTable("internal/chain/memdb", "Store", "memDBCursor") {
+		rows = append(rows, fmt.Sprintf("(%q, %q)", r[0], r[1]))
+	}
+	l.pf("/-- internal/chain/memdb: per method of Store and memDBCursor, whether its whole body is one critical section of the store mutex (W = Lock, R = RLock, - = neither) -/\ndef memdbLockTable : List (String × String) := [%s]\n", strings.Join(rows, ", "))
 	l.pf("end Gen\n")
 }
